@@ -17,7 +17,8 @@ SOURCES = ['celt/x86/x86cpu.c', 'celt/x86/x86cpu.h', 'celt/x86/x86_celt_map.c', 
 REQUIRED_THEOREMS = ['OpusProps.C15.' + t for t in (
     'arch_range', 'arch_decision', 'dispatch_shape', 'dispatch_safe', 'float_kernels_fixed_below_avx2', 'vqWMatEC_sse_eq_c',
     'lanes_eq_seq_inner_prod', 'lanes_eq_seq_dual_inner_prod', 'lanes_eq_seq_xcorr_kernel',
-    'lanes_eq_seq_pitch_xcorr', 'lanes_eq_seq_comb_filter', 'lanes_eq_seq_inner_product_flp')]
+    'lanes_eq_seq_pitch_xcorr', 'lanes_eq_seq_comb_filter', 'lanes_eq_seq_inner_product_flp',
+    'nsq_scale_lanes_eq_smulww_partial')]
 UNPROVED = [
     'nsq_simd_eq_c: silk_NSQ_sse4_1 / silk_NSQ_del_dec_sse4_1 / silk_NSQ_del_dec_avx2 return the same silk_nsq_state, indices '
     'and pulses as silk_NSQ_c / silk_NSQ_del_dec_c for every state the encoder can hand over (about 2700 lines of intrinsics, no Lean '
